@@ -133,3 +133,50 @@ func VerifC09_kept() {
 	check()
 	vfAssert(true, "kept-no-panic")
 }
+
+// VerifC09_wide: tables that grow past the initial column capacity, by each way a table gets columns.
+func VerifC09_wide() {
+	n := 8 + vfChoice("n", 5)
+	t := tabular.New()
+	items := make([]interface{}, n)
+	for i := range items {
+		items[i] = "w"
+	}
+	switch vfChoice("how", 5) {
+	case 0:
+		t.AddHeaders(items...)
+	case 1:
+		t.AddRowItems(items...)
+	case 2:
+		r := t.AppendNewRow()
+		for i := 0; i < n; i++ {
+			r.Add(tabular.NewCell("w"))
+		}
+	case 3: // a header of two, then an attached row extended cell by cell
+		t.AddHeaders("h", "i")
+		t.AddRowItems("a")
+		r := t.AllRows()[0]
+		for i := 1; i < n; i++ {
+			r.Add(tabular.NewCell("w"))
+		}
+	case 4: // headers and a row, both wide, and a narrow row
+		t.AddHeaders(items...)
+		t.AddRowItems(items...)
+		t.AddRowItems("a")
+	}
+	vfTag("wide-table")
+	vfAssert(t.NColumns() == n, "wide-column-count")
+	vfRenderAll(t, 1, true)
+	vfAssert(true, "wide-no-panic")
+}
+
+// VerifC09_content: every renderer is total on a cell and a header holding characters that one of
+// the formats treats specially (quotes, commas, pipes, backslashes, markup, newlines).
+func VerifC09_content() {
+	L := 2 + vfTier()
+	t := tabular.New()
+	t.AddHeaders(vfStringOf("h", 1, "\"|<"), "k")
+	t.AddRowItems(vfStringOf("c", L, "\"a,\n|<&\\"), "v")
+	vfRenderAll(t, 1, true)
+	vfAssert(true, "content-no-panic")
+}
